@@ -1,0 +1,53 @@
+//go:build verif
+
+// Verification accessors for property C04 (read-only views of the session table).
+package server
+
+import (
+	"sort"
+	"time"
+
+	"github.com/fatedier/frp/pkg/auth"
+)
+
+// VerifC04Session is a projection of one Control in ControlManager.ctlsByRunID.
+type VerifC04Session struct {
+	RunID      string    // map key
+	CtlRunID   string    // ctl.loginMsg.RunID
+	User       string    // ctl.loginMsg.User
+	PoolLen    int       // len(ctl.workConnCh)
+	PoolCap    int       // cap(ctl.workConnCh)
+	Proxies    []string  // sorted names in ctl.proxies
+	LastPing   time.Time // ctl.lastPing
+	AlwaysPass bool      // ctl.authVerifier == auth.AlwaysPassVerifier
+}
+
+// VerifC04Sessions returns the live sessions sorted by run id.
+func (svr *Service) VerifC04Sessions() []VerifC04Session {
+	svr.ctlManager.mu.RLock()
+	defer svr.ctlManager.mu.RUnlock()
+	out := make([]VerifC04Session, 0, len(svr.ctlManager.ctlsByRunID))
+	for id, ctl := range svr.ctlManager.ctlsByRunID {
+		s := VerifC04Session{RunID: id, CtlRunID: ctl.loginMsg.RunID, User: ctl.loginMsg.User,
+			PoolLen: len(ctl.workConnCh), PoolCap: cap(ctl.workConnCh)}
+		ctl.mu.RLock()
+		for n := range ctl.proxies {
+			s.Proxies = append(s.Proxies, n)
+		}
+		ctl.mu.RUnlock()
+		sort.Strings(s.Proxies)
+		if t, ok := ctl.lastPing.Load().(time.Time); ok {
+			s.LastPing = t
+		}
+		s.AlwaysPass = ctl.authVerifier == auth.Verifier(auth.AlwaysPassVerifier)
+		out = append(out, s)
+	}
+	sort.Slice(out, func(i, j int) bool { return out[i].RunID < out[j].RunID })
+	return out
+}
+
+// VerifC04ProxyNames returns the sorted names registered in the server-wide proxy manager.
+func (svr *Service) VerifC04ProxyNames() []string { return svr.pxyManager.VerifC04Names() }
+
+// VerifC04AuthVerifier returns the verifier the service was configured with.
+func (svr *Service) VerifC04AuthVerifier() auth.Verifier { return svr.authVerifier }
